@@ -888,11 +888,25 @@ package server
 //@   requires s != nil && msg != nil
 //@   modifies steps, perCall
 //@   ensures [json-reply] result1 == nil && msg.OutputType == JSON ==> jsonDoc(result0)
+// kfilt(p, K, n): the subsequence of K[0..n) that p matches
+//@ ghost func kfilt(p string, K []string, n int) []string
+//@ axiom kfilt.0: allstr(p, allof("[]string", K, kfilt(p, K, 0) == emptyseq("[]string")))
+//@ axiom kfilt.step: allstr(p, allof("[]string", K, allint(n, 0 <= n && n < len(K) ==> kfilt(p, K, n+1) == ite(globMatches(p, K[n]), app1(kfilt(p, K, n), K[n]), kfilt(p, K, n)))))
+// KEYS pattern (C12): the keys collected are exactly the stored keys that the pattern matches - every collected key
+// matches, and every stored key that matches is collected (for the bounded walk: it lies inside the limits glob.Parse
+// gives, limits soundness, so the walk reaches it before it stops).
 //@ func Server.cmdKEYS
 //@   frame-by-effects
+//@   uses kfilt.0, kfilt.step, btree.map.from.len, btree.map.vals, btree.map.len
 //@   requires s != nil && msg != nil
 //@   modifies steps, perCall
 //@   ensures [json-reply] result1 == nil && msg.OutputType == JSON ==> jsonDoc(result0)
+//@   loop 1 invariant [exact] keys == kfilt(pattern, mapKeys(*s.cols), idx1)
+//@   loop 2 invariant [exact] keys == kfilt(pattern, mapKeysFrom(*s.cols, g.Limits[0]), idx2)
+//@   loop 2 invariant [not-past-the-limit] forall(i, 0, idx2, !slt(g.Limits[1], mapKeysFrom(*s.cols, g.Limits[0])[i]))
+//@   loop 2 on-stop [stops-past-the-limit] slt(g.Limits[1], key)
+//@   at-call json.Marshal#1 [keys.exact.all] everything ==> keys == kfilt(pattern, mapKeys(*s.cols), len(mapKeys(*s.cols)))
+//@   at-call json.Marshal#1 [keys.exact.bounded] !everything ==> 0 <= idx2 && idx2 <= len(mapKeysFrom(*s.cols, g.Limits[0])) && keys == kfilt(pattern, mapKeysFrom(*s.cols, g.Limits[0]), idx2) && (idx2 < len(mapKeysFrom(*s.cols, g.Limits[0])) ==> slt(g.Limits[1], mapKeysFrom(*s.cols, g.Limits[0])[idx2]))
 //@ func Server.cmdFLUSHDB
 //@   frame-by-effects
 //@   entry-assume registriesNonNil(s) && allstr(k, (*s.cols)[k] != nil ==> colInv((*s.cols)[k]))
